@@ -232,3 +232,340 @@ Proof.
   - rewrite (tick_advance_untimed s T). split; [reflexivity|].
     apply (inv_untimed_acc s I T).
 Qed.
+
+(** * Floating-point part: the increment *)
+
+Lemma rnd_rel : forall x, / 1024 <= x ->
+  x * (1 - / 16777216) <= rnd x <= x * (1 + / 16777216).
+Proof.
+  intros x Hx.
+  assert (Hpos : 0 < x) by lra.
+  assert (Hb : bpow radix2 (-149 + 24 - 1) <= Rabs x).
+  { rewrite Rabs_pos_eq by lra.
+    apply Rle_trans with (bpow radix2 (-10)).
+    - apply bpow_le. lia.
+    - assert (E : bpow radix2 (-10) = / 1024) by exact (bpow2_neg 10 eq_refl).
+      rewrite E. exact Hx. }
+  pose proof (relative_error_N_FLT radix2 (-149) 24 Hprec (fun z => negb (Z.even z)) x Hb) as H.
+  change (round radix2 (FLT_exp (-149) 24) (Znearest (fun z => negb (Z.even z))) x)
+    with (rnd x) in H.
+  rewrite (Rabs_pos_eq x) in H by lra.
+  replace (/ 2 * bpow radix2 (- (24) + 1)) with (/ 16777216) in H.
+  2:{ assert (E : bpow radix2 (- (24) + 1) = / 8388608) by exact (bpow2_neg 23 eq_refl).
+      rewrite E. lra. }
+  apply Rabs_le_inv in H. lra.
+Qed.
+
+(** scaling by 2^24 is exact (the format has no upper exponent bound) *)
+Lemma fmt_scale24 : forall x, fmt x -> fmt (16777216 * x).
+Proof.
+  intros x Hx. unfold fmt in *.
+  apply FLT_format_generic in Hx; [|exact Hprec].
+  destruct Hx as [f Hf Hm He].
+  apply generic_format_FLT.
+  exists (Float radix2 (Fnum f) (Fexp f + 24)).
+  - rewrite Hf. unfold F2R. cbn [Fnum Fexp]. rewrite bpow_plus.
+    assert (E : bpow radix2 24 = 16777216) by exact (bpow2_pos 24 ltac:(discriminate)).
+    rewrite E. ring.
+  - exact Hm.
+  - cbn [Fexp]. lia.
+Qed.
+
+Lemma fmt_268435456 : fmt 268435456.
+Proof.
+  replace 268435456 with (bpow radix2 28).
+  - apply fmt_bpow. lia.
+  - exact (bpow2_pos 28 ltac:(discriminate)).
+Qed.
+
+(** the float computation of the increment, before truncation *)
+Lemma inc_float : forall fs t, fs_ok fs -> fin_in t (R32 MIN_TIME) (R32 MAX_TIME) ->
+  let X := 16777216 / (R32 t * R32 fs) in
+  let q := fdiv (fmul (of_Z 16777216) (fdiv f_1 t)) fs in
+  fin q /\ X * (1 - / 8388608) <= R32 q <= X * (1 + / 4194304) /\
+  436 / 100 <= R32 q <= 268435456.
+Proof.
+  intros fs t [Ffs Bfs] [Ft Bt] X q.
+  rewrite R32_MIN_TIME, R32_MAX_TIME in Bt.
+  set (T := R32 t) in *. set (F := R32 fs) in *.
+  assert (HT : 0 < T) by lra.
+  assert (HF : 0 < F) by lra.
+  (* r = 1/t *)
+  assert (HiT : / 20 <= / T <= 1000).
+  { split.
+    - apply Rinv_le_contravar; lra.
+    - apply Rle_trans with (/ (8589935 / 8589934592)).
+      + apply Rinv_le_contravar; lra.
+      + rewrite Rinv_div. lra. }
+  assert (Hr1 : / T * (1 - / 16777216) <= rnd (/ T) <= / T * (1 + / 16777216)).
+  { apply rnd_rel. lra. }
+  destruct (fdiv_correct f_1 t fin_f1 Ft) as [Vr Fr].
+  { fold T. lra. }
+  { apply no_overflow with 1024.
+    - apply (fmt_int 1024). lia.
+    - rewrite MAXF_val. lra.
+    - rewrite R32_f1. fold T. apply Rabs_le. unfold Rdiv. lra. }
+  rewrite R32_f1 in Vr. fold T in Vr. unfold Rdiv in Vr. rewrite Rmult_1_l in Vr.
+  set (r := fdiv f_1 t) in *.
+  (* m = 2^24 * r, exact *)
+  destruct (fin_R32_of_Z_small 16777216) as [Vc Fc]; [lia|].
+  assert (Hex : rnd (R32 (of_Z 16777216) * R32 r) = 16777216 * R32 r).
+  { rewrite Vc. apply rnd_id. apply fmt_scale24. apply fmt_R32. }
+  destruct (fmul_correct (of_Z 16777216) r Fc Fr) as [Vm Fm].
+  { rewrite Hex. rewrite Vr, MAXF_val. apply Rabs_lt. nra. }
+  rewrite Hex in Vm.
+  set (m := fmul (of_Z 16777216) r) in *.
+  (* q = m / fs *)
+  assert (HiF : / 192000 <= / F <= / 100).
+  { split; apply Rinv_le_contravar; lra. }
+  set (iF := / F) in *. set (iT := / T) in *.
+  assert (HX : X = 16777216 * iT * iF).
+  { unfold X, iT, iF. field. split; lra. }
+  assert (HY : R32 m / F = 16777216 * R32 r * iF).
+  { rewrite Vm. unfold Rdiv. reflexivity. }
+  assert (HYb : X * (1 - / 16777216) <= R32 m / F <= X * (1 + / 16777216)).
+  { rewrite HY, HX, Vr. split.
+    - replace (16777216 * iT * iF * (1 - / 16777216))
+        with ((16777216 * iF) * (iT * (1 - / 16777216))) by ring.
+      replace (16777216 * rnd iT * iF) with ((16777216 * iF) * rnd iT) by ring.
+      apply Rmult_le_compat_l; lra.
+    - replace (16777216 * iT * iF * (1 + / 16777216))
+        with ((16777216 * iF) * (iT * (1 + / 16777216))) by ring.
+      replace (16777216 * rnd iT * iF) with ((16777216 * iF) * rnd iT) by ring.
+      apply Rmult_le_compat_l; lra. }
+  assert (HXb : 4369 / 1000 <= X <= 167772160).
+  { rewrite HX. split.
+    - apply Rle_trans with (16777216 * / 20 * / 192000); [lra|].
+      apply Rmult_le_compat; try lra; try (apply Rmult_le_compat_l; lra).
+    - apply Rle_trans with (16777216 * 1000 * / 100); [|lra].
+      apply Rmult_le_compat; try lra;
+        try (apply Rmult_le_compat_l; lra); try (apply Rmult_le_pos; lra). }
+  assert (HYpos : / 1024 <= R32 m / F) by nra.
+  assert (Hr2 := rnd_rel (R32 m / F) HYpos).
+  destruct (fdiv_correct m fs Fm Ffs) as [Vq Fq].
+  { fold F. lra. }
+  { fold F. apply no_overflow with 268435456.
+    - exact fmt_268435456.
+    - rewrite MAXF_val. lra.
+    - apply Rabs_le. nra. }
+  fold F in Vq. fold q in Vq, Fq.
+  split; [exact Fq|].
+  rewrite Vq.
+  set (Y := R32 m / F) in *.
+  assert (HXpos : 0 < X) by lra.
+  assert (HYp : 0 < Y) by lra.
+  assert (L : X * (1 - / 8388608) <= rnd Y).
+  { apply Rle_trans with (Y * (1 - / 16777216)); [|lra].
+    apply Rle_trans with (X * (1 - / 16777216) * (1 - / 16777216)).
+    - replace (X * (1 - / 16777216) * (1 - / 16777216))
+        with (X * ((1 - / 16777216) * (1 - / 16777216))) by ring.
+      apply Rmult_le_compat_l; lra.
+    - apply Rmult_le_compat_r; lra. }
+  assert (U : rnd Y <= X * (1 + / 4194304)).
+  { apply Rle_trans with (Y * (1 + / 16777216)); [lra|].
+    apply Rle_trans with (X * (1 + / 16777216) * (1 + / 16777216)).
+    - apply Rmult_le_compat_r; lra.
+    - replace (X * (1 + / 16777216) * (1 + / 16777216))
+        with (X * ((1 + / 16777216) * (1 + / 16777216))) by ring.
+      apply Rmult_le_compat_l; lra. }
+  split; [split; assumption|].
+  split; nra.
+Qed.
+
+Lemma increment_bounds : forall fs t, fs_ok fs -> fin_in t (R32 MIN_TIME) (R32 MAX_TIME) ->
+  let X := 16777216 / (R32 t * R32 fs) in
+  X * (1 - / 8388608) - 1 < IZR (inc_of fs t) <= X * (1 + / 4194304) /\
+  (4 <= inc_of fs t <= 4278190080)%Z.
+Proof.
+  intros fs t Hfs Ht X.
+  destruct (inc_float fs t Hfs Ht) as (Fq & [L U] & [Lq Uq]).
+  fold X in L, U.
+  unfold inc_of. rewrite to_u32_fin by exact Fq.
+  set (x := R32 (fdiv (fmul (of_Z 16777216) (fdiv f_1 t)) fs)) in *.
+  rewrite Ztrunc_floor by lra.
+  assert (H1 := Zfloor_lb x). assert (H2 := Zfloor_ub x).
+  assert (H4 : (4 <= Zfloor x)%Z) by (apply Zfloor_lub; lra).
+  assert (H5 : (Zfloor x <= 268435456)%Z) by (apply le_IZR; lra).
+  unfold U32_MAX.
+  replace (Z.max 0 (Z.min 4294967295 (Zfloor x))) with (Zfloor x) by lia.
+  split; [split; lra | lia].
+Qed.
+
+(** * Phase length *)
+
+Lemma ticks_for_spec : forall inc, (0 < inc)%Z ->
+  ((ticks_for inc - 1) * inc < 16777216 <= ticks_for inc * inc)%Z.
+Proof.
+  intros inc Hinc. unfold ticks_for.
+  pose proof (Z.div_mod (16777216 + inc - 1) inc ltac:(lia)) as Hd.
+  pose proof (Z.mod_pos_bound (16777216 + inc - 1) inc Hinc) as Hm.
+  set (q := ((16777216 + inc - 1) / inc)%Z) in *.
+  set (r := ((16777216 + inc - 1) mod inc)%Z) in *.
+  nia.
+Qed.
+
+Lemma ticks_for_lt : forall inc n, (0 < inc)%Z -> (0 <= n)%Z ->
+  ((n < ticks_for inc)%Z <-> (n * inc < 16777216)%Z).
+Proof.
+  intros inc n Hinc Hn. pose proof (ticks_for_spec inc Hinc) as [H1 H2].
+  set (k := ticks_for inc) in *. split; intros H; nia.
+Qed.
+
+Lemma period_in : forall s, InvC s -> fin_in (period_of s) (R32 MIN_TIME) (R32 MAX_TIME).
+Proof.
+  intros s I. unfold period_of.
+  assert (Hmin : fin_in MIN_TIME (R32 MIN_TIME) (R32 MAX_TIME)).
+  { split; [exact fin_MIN_TIME|]. split; [lra|exact MIN_le_MAX]. }
+  destruct (a_state s); try exact Hmin; apply I.
+Qed.
+
+Lemma adsr_inc_bounds : forall s, InvC s -> fs_ok (pa_fs (a_pa s)) ->
+  (4 <= adsr_inc s <= 4278190080)%Z.
+Proof.
+  intros s I Hfs. unfold adsr_inc.
+  apply (increment_bounds (pa_fs (a_pa s)) (period_of s) Hfs (period_in s I)).
+Qed.
+
+Lemma adsr_inc_same : forall s s',
+  a_attack s' = a_attack s -> a_decay s' = a_decay s -> a_release s' = a_release s ->
+  pa_fs (a_pa s') = pa_fs (a_pa s) -> a_state s' = a_state s ->
+  adsr_inc s' = adsr_inc s.
+Proof.
+  intros s s' Ea Ed Er Ef Es. unfold adsr_inc, period_of. rewrite Ea, Ed, Er, Ef, Es. reflexivity.
+Qed.
+
+Definition ticks (n : nat) (s : adsr) : adsr := fold_left adsr_step (repeat ATick n) s.
+
+Lemma ticks_S : forall n s, ticks (S n) s = ticks n (adsr_step s ATick).
+Proof. intros n s. reflexivity. Qed.
+
+Lemma ticks_snoc : forall n s, ticks (S n) s = adsr_step (ticks n s) ATick.
+Proof.
+  intros n s. unfold ticks. change (repeat ATick (S n)) with (ATick :: repeat ATick n).
+  rewrite repeat_cons, fold_left_app. reflexivity.
+Qed.
+
+Lemma ticks_add : forall a b s, ticks (a + b) s = ticks b (ticks a s).
+Proof. intros a b s. unfold ticks. rewrite repeat_app, fold_left_app. reflexivity. Qed.
+
+(** while the position stays below 2^24, ticks only add the (constant) increment *)
+Lemma run_ticks : forall k s, InvC s -> timed (a_state s) = true ->
+  (0 <= adsr_inc s <= 4278190080)%Z ->
+  (pa_acc (a_pa s) + Z.of_nat k * adsr_inc s < 16777216)%Z ->
+  let s' := ticks k s in
+  InvC s' /\ a_state s' = a_state s /\
+  a_attack s' = a_attack s /\ a_decay s' = a_decay s /\ a_release s' = a_release s /\
+  pa_fs (a_pa s') = pa_fs (a_pa s) /\
+  pa_acc (a_pa s') = (pa_acc (a_pa s) + Z.of_nat k * adsr_inc s)%Z.
+Proof.
+  induction k as [|k IH]; intros s I T Hinc Hlt s'; subst s'.
+  - unfold ticks. cbn [repeat fold_left]. split; [exact I|].
+    repeat split; try reflexivity. change (Z.of_nat 0) with 0%Z. lia.
+  - rewrite ticks_S.
+    rewrite Nat2Z.inj_succ in Hlt |- *.
+    pose proof (tick_spec s I ltac:(lia)) as Hs. cbv zeta in Hs. rewrite T in Hs.
+    assert (E : (pa_acc (a_pa s) + adsr_inc s <? 16777216)%Z = true) by (apply Z.ltb_lt; nia).
+    rewrite E in Hs. destruct Hs as [Hst Hacc].
+    destruct (tick_params s) as (Ea & Ed & Er & Ef).
+    set (s1 := adsr_step s ATick) in *.
+    assert (I1 : InvC s1) by (apply InvC_tick; exact I).
+    assert (Ei : adsr_inc s1 = adsr_inc s) by (apply adsr_inc_same; assumption).
+    destruct (IH s1 I1) as (I2 & Hst2 & Ea2 & Ed2 & Er2 & Ef2 & Hacc2).
+    + rewrite Hst. exact T.
+    + rewrite Ei. exact Hinc.
+    + rewrite Ei, Hacc. lia.
+    + rewrite Ei, Hacc in Hacc2.
+      split; [exact I2|].
+      repeat split; try congruence. rewrite Hacc2. lia.
+Qed.
+
+Lemma phase_length_exact : forall s n, InvC s -> fs_ok (pa_fs (a_pa s)) ->
+  timed (a_state s) = true -> pa_acc (a_pa s) = 0%Z ->
+  let inc := adsr_inc s in
+  (0 <= Z.of_nat n < ticks_for inc)%Z ->
+  let s' := fold_left adsr_step (repeat ATick n) s in
+  a_state s' = a_state s /\ pa_acc (a_pa s') = (Z.of_nat n * inc)%Z /\
+  (Z.of_nat n + 1 = ticks_for inc ->
+   a_state (adsr_step s' ATick) = next_phase (a_state s)).
+Proof.
+  intros s n I Hfs T Hacc inc Hn s'.
+  pose proof (adsr_inc_bounds s I Hfs) as Hinc. fold inc in Hinc.
+  assert (Hlt : (Z.of_nat n * inc < 16777216)%Z).
+  { apply ticks_for_lt; lia. }
+  destruct (run_ticks n s I T) as (I2 & Hst & Ea & Ed & Er & Ef & Hacc2).
+  { fold inc. lia. }
+  { fold inc. lia. }
+  change (ticks n s) with s' in *. fold inc in Hacc2. rewrite Hacc in Hacc2.
+  split; [exact Hst|]. split; [rewrite Hacc2; lia|].
+  intros Hlast.
+  assert (Ei : adsr_inc s' = inc) by (apply adsr_inc_same; assumption).
+  pose proof (tick_spec s' I2 ltac:(lia)) as Hs. cbv zeta in Hs.
+  rewrite Hst, T, Ei, Hacc2 in Hs.
+  pose proof (ticks_for_spec inc ltac:(lia)) as [_ Hge].
+  assert (E : (0 + Z.of_nat n * inc + inc <? 16777216)%Z = false).
+  { apply Z.ltb_ge. rewrite <- Hlast in Hge. lia. }
+  rewrite E in Hs. apply Hs.
+Qed.
+
+(** ** liveness *)
+
+Lemma finish_phase : forall s, InvC s -> fs_ok (pa_fs (a_pa s)) -> timed (a_state s) = true ->
+  exists n, (1 <= Z.of_nat n <= 4194304)%Z /\
+    InvC (ticks n s) /\ a_state (ticks n s) = next_phase (a_state s) /\
+    pa_fs (a_pa (ticks n s)) = pa_fs (a_pa s).
+Proof.
+  intros s I Hfs T.
+  pose proof (adsr_inc_bounds s I Hfs) as Hinc.
+  pose proof (inv_acc s I) as Ha.
+  set (inc := adsr_inc s) in *. set (a := pa_acc (a_pa s)) in *.
+  set (m := ((16777216 - a + inc - 1) / inc)%Z).
+  assert (Hm : ((m - 1) * inc < 16777216 - a <= m * inc)%Z).
+  { pose proof (Z.div_mod (16777216 - a + inc - 1) inc ltac:(lia)) as Hd.
+    pose proof (Z.mod_pos_bound (16777216 - a + inc - 1) inc ltac:(lia)) as Hr.
+    fold m in Hd. set (r := ((16777216 - a + inc - 1) mod inc)%Z) in *. nia. }
+  assert (Hm1 : (1 <= m <= 4194304)%Z) by nia.
+  set (k := Z.to_nat (m - 1)).
+  assert (Hk : Z.of_nat k = (m - 1)%Z) by (unfold k; apply Z2Nat.id; lia).
+  exists (S k).
+  split; [rewrite Nat2Z.inj_succ; lia|].
+  destruct (run_ticks k s I T) as (I2 & Hst & Ea & Ed & Er & Ef & Hacc2).
+  { fold inc. lia. }
+  { fold inc a. rewrite Hk. lia. }
+  fold inc a in Hacc2. rewrite Hk in Hacc2.
+  rewrite ticks_snoc. set (s' := ticks k s) in *.
+  assert (Ei : adsr_inc s' = inc) by (apply adsr_inc_same; assumption).
+  pose proof (tick_spec s' I2 ltac:(lia)) as Hs. cbv zeta in Hs.
+  rewrite Hst, T, Ei, Hacc2 in Hs.
+  assert (E : (a + (m - 1) * inc + inc <? 16777216)%Z = false) by (apply Z.ltb_ge; lia).
+  rewrite E in Hs.
+  split; [apply InvC_tick; exact I2|]. split; [apply Hs|].
+  destruct (tick_params s') as (_ & _ & _ & Ef2). rewrite Ef2. exact Ef.
+Qed.
+
+Lemma reaches_sustain : forall s, InvC s -> fs_ok (pa_fs (a_pa s)) -> a_state s = Attack ->
+  exists n, (Z.of_nat n <= 8388610)%Z /\
+    a_state (fold_left adsr_step (repeat ATick n) s) = Sustain.
+Proof.
+  intros s I Hfs St.
+  destruct (finish_phase s I Hfs) as (n1 & Hn1 & I1 & St1 & Ef1).
+  { rewrite St. reflexivity. }
+  rewrite St in St1. cbn [next_phase] in St1.
+  destruct (finish_phase (ticks n1 s) I1) as (n2 & Hn2 & I2 & St2 & Ef2).
+  { rewrite Ef1. exact Hfs. }
+  { rewrite St1. reflexivity. }
+  rewrite St1 in St2. cbn [next_phase] in St2.
+  exists (n1 + n2)%nat. split.
+  - rewrite Nat2Z.inj_add. lia.
+  - change (a_state (ticks (n1 + n2) s) = Sustain). rewrite ticks_add. exact St2.
+Qed.
+
+Lemma reaches_rest : forall s, InvC s -> fs_ok (pa_fs (a_pa s)) -> a_state s = Release ->
+  exists n, (Z.of_nat n <= 4194305)%Z /\
+    a_state (fold_left adsr_step (repeat ATick n) s) = AtRest.
+Proof.
+  intros s I Hfs St.
+  destruct (finish_phase s I Hfs) as (n1 & Hn1 & I1 & St1 & Ef1).
+  { rewrite St. reflexivity. }
+  rewrite St in St1. cbn [next_phase] in St1.
+  exists n1. split; [lia|exact St1].
+Qed.
